@@ -149,6 +149,7 @@ def run(ctx):
     ctx.correspondence("Model.Gen3.permute vs the argument order the evaluators actually used (read back from paths)", len(cases), mism)
     no_path_cases(ctx, S, ns)
     spec_reading_cases(ctx)
+    branch_selected_cases(ctx, S)
     no_switch_cases(ctx, S)
     tone_list_cases(ctx, S)
     repeated_statement_cases(ctx, S)
@@ -164,7 +165,7 @@ def second_spec():
     traps = Grid.from_positions([100.0, 103.0, 107.0], [50.0, 52.0, 54.0, 56.0])
     aux = Grid.from_positions([-20.0, -21.5][::-1], [1.0, 2.0])
     lay = Layout(static_traps={"traps": traps, "aux": aux}, fillable={"traps"}, has_cz={"traps"}, has_local=set(), special_grid={})
-    return ArchSpec(layout=lay, float_constants={"pitch": 0.75}, int_constants={"rows": 4})
+    return ArchSpec(layout=lay, float_constants={"pitch": 0.75, "origin": 0.0}, int_constants={"rows": 4, "zero": 0})
 
 
 def pos_text(ap):
@@ -368,13 +369,16 @@ def spec_reading_cases(ctx):
     SA, SB = tweezer_prog.harness_spec(), second_spec()
     ksrc = ('@tweezer\ndef kz(p0: float):\n    z = spec.get_static_trap(zone_id="traps")\n'
             '    action.set_loc(grid.sub_grid(z, [0], [1]))\n    action.turn_on([0], [0])\n'
-            '    action.move(grid.shift(grid.sub_grid(z, [0], [1]), p0 * spec.get_float_constant(constant_id="pitch"), 0.0))\n')
+            '    action.move(grid.shift(grid.sub_grid(z, [0], [1]), p0 * spec.get_float_constant(constant_id="pitch"), 0.0))\n'
+            # constants whose value is falsy (0.0 / 0): an offset of zero is still a defined constant
+            '    action.move(grid.shift(grid.sub_grid(z, [0], [1]), spec.get_float_constant(constant_id="origin"), 1.0 + spec.get_int_constant(constant_id="zero")))\n')
     kz = kernels.define(ksrc)["kz"]
     n_ok = 0
     for rnd in range(2):
         for S, sname in ((SA, "A"), (SB, "B"), (SA, "A")):
             for callee, rev in (("f", False), ("r", True)):
-                direct = tc.abstract_path(tc.run_impl(kz, (2.0,), S)[1])
+                # the reference is the kernel's source evaluated natively (no interpreter of the implementation involved)
+                direct = tc.ref_trace(tc.run_native(ksrc, "kz", (2.0,), S)[1])
                 if rev:
                     from props.c02 import _rev_abs
                     direct = _rev_abs(direct)
@@ -400,6 +404,69 @@ def spec_reading_cases(ctx):
                     else:
                         n_ok += 1
     ctx.count("spec-reading kernel x 2 specs alternating x 4 routes x fwd/rev: agree", n_ok)
+
+
+BRANCH_SRC = """
+@move{DEC}
+def main(c: bool{PARAMS}):
+    if c:
+        f = {A}
+    else:
+        f = {B}
+    f({ARG})
+"""
+
+
+def branch_selected_cases(ctx, S):
+    """the called device function comes out of a branch on a RUN-TIME condition: same kernel with other tones, forward against reversed,
+    two kernels; constant and run-time operands; the path and its tones are those of the device function the run selects, on every route"""
+    ksrc = ('@tweezer\ndef ka(p0: float):\n    g = grid.from_positions([p0, p0 + 2.0, p0 + 5.0], [0.0, 1.0, 3.0])\n    action.set_loc(g)\n'
+            '    action.turn_on(action.ALL, [0])\n    action.move(grid.shift(g, 1.0, p0))\n    action.turn_off(action.ALL, [0])\n'
+            '@tweezer\ndef kb(p0: float):\n    g = grid.from_positions([p0, p0 + 2.0, p0 + 5.0], [0.0, 1.0, 3.0])\n    action.set_loc(g)\n'
+            '    action.turn_on([0], action.ALL)\n    action.move(grid.shift(g, p0, 2.0))\n')
+    ns = kernels.define(ksrc)
+    from props.c02 import _rev_abs
+    pairs = [("same kernel, other tones", "schedule.device_fn(ka, [0, 1, 2], [0, 1, 2])", "schedule.device_fn(ka, [0, 2, 4], [1, 3, 5])"),
+             ("same kernel, other y tones only", "schedule.device_fn(ka, [0, 1, 2], [0, 1, 2])", "schedule.device_fn(ka, [0, 1, 2], [0, 1, 3])"),
+             ("forward against reversed", "schedule.device_fn(ka, [0, 1, 2], [0, 1, 2])", "schedule.reverse(schedule.device_fn(ka, [0, 1, 2], [0, 1, 2]))"),
+             ("reversed with other tones", "schedule.reverse(schedule.device_fn(ka, [0, 1, 2], [0, 1, 2]))", "schedule.reverse(schedule.device_fn(ka, [0, 1, 3], [0, 1, 2]))"),
+             ("two kernels, same tones", "schedule.device_fn(ka, [0, 1, 2], [0, 1, 2])", "schedule.device_fn(kb, [0, 1, 2], [0, 1, 2])")]
+    n = 0
+
+    def describe(expr):
+        import re
+        rev = expr.startswith("schedule.reverse(")
+        kname = "ka" if "(ka," in expr else "kb"
+        xt, yt = [eval(t) for t in re.findall(r"\[[0-9, ]*\]", expr)]
+        p = tc.abstract_path(tc.run_impl(ns[kname], (2.0,), S)[1])
+        return (xt, yt, pos_text(_rev_abs(p) if rev else p))
+    for label, A, B in pairs:
+        for c in (True, False):
+            want = describe(A if c else B)
+            for dec, plain, byparam in (("(arch_spec=S)", True, False), ("(arch_spec=S)", True, True), ("(arch_spec=S, fold=False)", True, False), ("", False, False),
+                                       ("(fold=False)", False, True), ("(arch_spec=S, aggressive=True)", True, False)):
+                src = BRANCH_SRC.replace("{DEC}", dec).replace("{PARAMS}", ", x0: float" if byparam else "").replace("{A}", A).replace("{B}", B).replace("{ARG}", "x0" if byparam else "2.0")
+                rep = {"branch_src": src, "c": c, "plain": plain, "byparam": byparam, "pair": label}
+                ctx.evaluations += 1
+                n += 1
+                try:
+                    m = kernels.define(src, S=S, **{k: ns[k] for k in ("ka", "kb")})["main"]
+                    st, evs, extra = events.run_events(m, (c, 2.0) if byparam else (c,), S, plain=plain)
+                except Exception as e:
+                    st, evs, extra = "err", [], f"{type(e).__name__}: {e}"
+                if st != "ok" or len(evs) != 1 or evs[0][0] != "play":
+                    ctx.fail({"kind": "no-path", "branch_selected": label, "decorator": dec}, rep, f"@move{dec}, device function selected by a run-time branch ({label}): no path played: {str(extra)[:120]}")
+                    continue
+                pv = evs[0][1]
+                got = (list(pv.x_tones), list(pv.y_tones), pos_text(tc.abstract_path(pv.path)))
+                if got != want:
+                    what = "tones" if got[:2] != want[:2] else "path"
+                    ctx.fail({"kind": "wrong-path", "branch_selected": label, "decorator": dec, "differs_in": what}, rep,
+                             f"@move{dec} ({'run-time' if byparam else 'constant'} operand), device function selected by a run-time branch ({label}), c={c}: "
+                             f"played {what} {str(got[:2] if what == 'tones' else got[2])[:100]} but the selected device function has {str(want[:2] if what == 'tones' else want[2])[:100]}")
+                else:
+                    ctx.nt(("branch-selected", label, c, dec, byparam))
+    ctx.count("device function selected by a run-time branch x 6 routes", n)
 
 
 def outcome(st, evs):
